@@ -67,6 +67,10 @@ func (td *UnionTypeDef) FromView(selector uint8, v View) (*UnionView, error) {
 }
 
 func (td *UnionTypeDef) DefaultNode() Node {
+	if td.Options[0] == nil {
+		// Union[None, T...]: the default is the None option, represented by a zero content node
+		return NewPairNode(new(Root), new(Root))
+	}
 	return NewPairNode(td.Options[0].DefaultNode(), new(Root))
 }
 
